@@ -17,11 +17,21 @@ Scenario lines (the Lean side is lean/DesperModel/MathExec.lean, generated from 
     callf <fn> <float>*        ordinary float run with the real `math` module (a *test*, judged by the
                                oracle with a tolerance; the model does not compute floats)
     swz <Vec2|Vec3|Vec4> <attrs|-> <rational>*     swizzled attribute access (`__getattr__`)
+    obj <id> <rational>*       an operand OBJECT that lives across the calls of the scenario: one Python
+                               list, created once.  `@id` among the arguments of a later `call` passes
+                               that very object (a vector / matrix argument given as a plain sequence)
+    set <id> <i> <rational>    edits the object in place (`lst[i] = v`) between two calls
+    A token `!v` (in `call` / `obj` / `set`) is a user number object (`Reent`) worth v whose every
+    arithmetic operation or comparison first calls back into desper.math (nested Mat4 / Mat3 products,
+    matrix @ vector, cross, swizzle) and then acts as the exact number v.
+All lines of a scenario run in ONE process, in order: state that desper.math keeps between calls
+(caches, reusable buffers) is exercised by repeated / interleaved calls and by re-entrant entries.
 
 Observations:  r|rx <fn> <kind> <rational>* [warn]  |  r|rx <fn> raised <Exc>
                re <fn> <kind> <[~]rational>* [warn]  |  re <fn> raised <Exc>
                rf <fn> <kind> <float repr>* [warn]  |  rf <fn> raised <Exc>
                r swz <cls> <attrs> <kind> <rational>*  |  r swz <cls> <attrs> raised <Exc>
+               o <id> <n> | o <id> set <i> | o <id> raised <Exc>
 <fn> names are those of harness/math_api.py `API` (one per public function / operator).
 """
 import math
@@ -110,15 +120,80 @@ class Q:
         return str(self.f)
 
 
+class Reent:
+    """A user number object worth `q`.  Every arithmetic operation / comparison first calls back into
+    desper.math - products and vector operations on the same types the outer call is working on -
+    and then behaves as the exact number (returns a plain `Q`).  Re-entrancy at run time."""
+    __slots__ = ('q',)
+    nested_calls = 0
+
+    def __init__(self, q):
+        self.q = Q(q)
+
+    @staticmethod
+    def _nest():
+        import desper.math as M
+        Reent.nested_calls += 1
+        a = M.Mat4((2, 0, 1, 0, 0, 3, 0, 1, 1, 0, 1, 0, 5, -2, 7, 1))
+        b = M.Mat4((1, 2, 0, 0, 0, 1, 0, 3, 4, 0, 1, 0, 1, 6, -1, 1))
+        c = a @ b
+        v = c @ M.Vec4(1, 2, 3, 4)
+        m = M.Mat3((1, 2, 0, 0, 1, 3, 4, 0, 1)) @ M.Mat3((2, 0, 1, 0, 3, 0, 1, 0, 1))
+        w = (m @ M.Vec3(1, -1, 2)).cross(M.Vec3(v[0], v[1], v[2]))
+        w.zyx, v.xw, M.Vec2(3, 4).yx
+        (~a) @ c
+        M.Mat4.from_translation(w).translate(w).transpose()
+        w.lerp(M.Vec3(0, 1, 2), 1).dot(w)
+
+    def _bin(op):
+        def f(self, o):
+            c = o.q if isinstance(o, Reent) else o
+            Reent._nest()
+            return op(self.q, c)
+
+        def r(self, o):
+            Reent._nest()
+            return op(o, self.q)
+        return f, r
+
+    __add__, __radd__ = _bin(lambda a, b: a + b)
+    __sub__, __rsub__ = _bin(lambda a, b: a - b)
+    __mul__, __rmul__ = _bin(lambda a, b: a * b)
+    __truediv__, __rtruediv__ = _bin(lambda a, b: a / b)
+    __lt__, __gt__ = _bin(lambda a, b: a < b)[0], _bin(lambda a, b: a > b)[0]
+    __le__, __ge__ = _bin(lambda a, b: a <= b)[0], _bin(lambda a, b: a >= b)[0]
+    __eq__, __ne__ = _bin(lambda a, b: a == b)[0], _bin(lambda a, b: a != b)[0]
+
+    def __hash__(self):
+        return hash(self.q)
+
+    def _un(op):
+        def f(self, *a):
+            Reent._nest()
+            return op(self.q, *a)
+        return f
+
+    __neg__, __pos__, __abs__ = _un(lambda a: -a), _un(lambda a: +a), _un(abs)
+    __pow__, __bool__, __float__ = _un(lambda a, e: a ** e), _un(bool), _un(float)
+    __round__ = _un(lambda a, nd=None: round(a, nd))
+
+    def __repr__(self):
+        return f'!{self.q}'
+
+
 def is_scalar(x):
-    return isinstance(x, (Q, int, float, Fraction)) and not isinstance(x, bool)
+    return isinstance(x, (Q, Reent, int, float, Fraction)) and not isinstance(x, bool)
 
 
 def parse_rat(tok):
+    if tok.startswith('!'):
+        return Reent(Fraction(tok[1:]))
     return Q(Fraction(tok))
 
 
 def show_rat(x):
+    if isinstance(x, Reent):            # an argument handed back unchanged
+        x = x.q
     if isinstance(x, float) and not math.isfinite(x):
         return repr(x)
     return str(Q(x).f)
@@ -140,10 +215,28 @@ def is_plain_scalar(x):
     return type(x) in (int, float, Fraction)
 
 
+class ObjRef:
+    """`@id` among the arguments: the operand object itself is passed, not a copy."""
+    def __init__(self, obj):
+        self.obj = obj
+
+
+class UnknownObject(Exception):
+    pass
+
+
 def build_args(M, entry, leaves):
     args, off = [], 0
     for _, kind in entry.params:
         n = math_api.KIND_LEN[kind]
+        if off < len(leaves) and isinstance(leaves[off], ObjRef):
+            if kind == 's' or len(leaves[off].obj) != n:
+                raise ValueError(f'{entry.name}: object of length {len(leaves[off].obj)} for a {kind}')
+            args.append(leaves[off].obj)
+            off += 1
+            continue
+        if any(isinstance(x, ObjRef) for x in leaves[off:off + n]):
+            raise ValueError(f'{entry.name}: object reference in the middle of a {kind}')
         args.append(math_api.build(M, kind, leaves[off:off + n]))
         off += n
     if off != len(leaves):
@@ -152,10 +245,14 @@ def build_args(M, entry, leaves):
 
 
 def run_call(M, tag, entry, leaves, show, is_scalar=is_scalar):
+    try:
+        args = build_args(M, entry, leaves)
+    except ValueError as e:
+        return f'bad-line {e}'
     with warnings.catch_warnings(record=True) as w:
         warnings.simplefilter('always')
         try:
-            value = entry.fn(M, *build_args(M, entry, leaves))
+            value = entry.fn(M, *args)
         except Exception as e:      # noqa: BLE001 - the exception class is the observation
             return f'{tag} {entry.name} raised {type(e).__name__}'
     cl = math_api.classify(M, value, is_scalar)
@@ -168,11 +265,23 @@ def run_call(M, tag, entry, leaves, show, is_scalar=is_scalar):
 def run_impl(lines):
     import desper.math as M
     obs = []
+    store = {}                  # id -> the one Python list of that operand object
     for ln in lines:
         t = ln.split()
         if not t:
             continue
-        if t[0] in ('call', 'callx', 'callf', 'calle'):
+        if t[0] == 'obj':
+            store[t[1]] = [parse_rat(x) for x in t[2:]]
+            obs.append(f'o {t[1]} {len(t) - 2}')
+        elif t[0] == 'set':
+            if t[1] not in store:
+                obs.append(f'o {t[1]} raised UnknownObject')
+            elif int(t[2]) >= len(store[t[1]]):
+                obs.append(f'o {t[1]} raised IndexError')
+            else:
+                store[t[1]][int(t[2])] = parse_rat(t[3])        # in place: same object
+                obs.append(f'o {t[1]} set {int(t[2])}')
+        elif t[0] in ('call', 'callx', 'callf', 'calle'):
             entry = API.get(t[1])
             if entry is None:
                 obs.append(f'bad-line {ln}')
@@ -180,7 +289,11 @@ def run_impl(lines):
             if t[0] == 'callf':
                 obs.append(run_call(M, 'rf', entry, [float(x) for x in t[2:]], lambda x: repr(float(x))))
             elif t[0] == 'call':
-                obs.append(run_call(M, 'r', entry, [parse_rat(x) for x in t[2:]], show_rat))
+                if any(x.startswith('@') and x[1:] not in store for x in t[2:]):
+                    obs.append(f'r {t[1]} raised UnknownObject')
+                    continue
+                leaves = [ObjRef(store[x[1:]]) if x.startswith('@') else parse_rat(x) for x in t[2:]]
+                obs.append(run_call(M, 'r', entry, leaves, show_rat))
             elif t[0] == 'calle':
                 obs.append(run_call(M, 're', entry, [parse_exact(x) for x in t[2:]], show_exact,
                                     is_plain_scalar))
